@@ -1,6 +1,7 @@
 import OpcuaModel.Model.JsonIO
 import OpcuaModel.Model.Graph
 import OpcuaModel.Model.Order
+import OpcuaModel.Model.Parse
 /-! Line-protocol driver: one JSON object per input line → one JSON object per output line.
     It only *evaluates* the model's definitions; it contains no logic of its own beyond decoding. -/
 open Lean Opcua Opcua.IO
@@ -141,6 +142,123 @@ def opOrderEq (j : Json) : Except String Json := do
   | .ok v => return Json.mkObj [("eq", Json.bool v)]
   | .error e => return errJson e
 
+/-! ### parse ops (C01–C04, C18) -/
+def optStrOf (j : Json) : Option Str :=
+  match j with
+  | .str s => some (strOf s)
+  | _ => none
+
+def pairsOf (j : Json) : Except String (List (Str × Str)) := do
+  let a ← j.getArr?
+  a.toList.mapM fun p => do
+    let q ← p.getArr?
+    if q.size != 2 then throw "pair"
+    return (strOf (← q[0]!.getStr?), strOf (← q[1]!.getStr?))
+
+def reqModelOf (j : Json) : ReqModel :=
+  ⟨optStrOf (j.getObjValD "uri"), optStrOf (j.getObjValD "publication_date"), optStrOf (j.getObjValD "version")⟩
+
+def modelOf (j : Json) : Except String ModelElem := do
+  let req ← getArr j "required"
+  return ⟨optStrOf (j.getObjValD "uri"), optStrOf (j.getObjValD "publication_date"), optStrOf (j.getObjValD "version"),
+    req.toList.map reqModelOf⟩
+
+def nodeElemOf (j : Json) : Except String NodeElem := do
+  let cls ← getStr j "cls"
+  let attrs ← pairsOf (← j.getObjVal? "attrs")
+  let dn := (← getArr j "display").toList.map optStrOf
+  let ds := (← getArr j "description").toList.map optStrOf
+  let refs ← (← getArr j "refs").toList.mapM fun r => do
+    return (⟨← pairsOf (← r.getObjVal? "attrs"), optStrOf (r.getObjValD "text")⟩ : RefElem)
+  return ⟨cls, attrs, dn, ds, refs⟩
+
+def docOf (j : Json) : Except String Doc := do
+  let uris ← (← getArr j "uris").toList.mapM fun u => do return strOf (← u.getStr?)
+  let models ← (← getArr j "models").toList.mapM modelOf
+  let aliases ← (← getArr j "aliases").toList.mapM fun p => do
+    let q ← p.getArr?
+    if q.size != 2 then throw "alias pair"
+    -- an Alias element without text cannot be parsed by the code (`None.split`): mark it
+    return (strOf (← q[0]!.getStr?), (optStrOf q[1]!).getD [])
+  let nodes ← (← getArr j "nodes").toList.mapM nodeElemOf
+  return ⟨uris, models, aliases, nodes⟩
+
+def optNidToJson : Option NodeId → Json
+  | none => Json.null
+  | some n => nodeIdToJson n
+
+def attrValToJson : AttrVal → Json
+  | .str s => Json.str (ofStr s)
+  | .int i => Json.num (JsonNumber.fromInt i)
+  | .bool b => Json.bool b
+
+def rowToJson (r : NodeRow) : Json :=
+  Json.mkObj [("cls", Json.str (ofStr r.cls)), ("id", nodeIdToJson r.nodeId), ("browse", Json.str (ofStr r.browseName)),
+    ("browse_ns", match r.browseNs with | none => Json.null | some i => Json.num (JsonNumber.fromInt i)),
+    ("display", Json.str (ofStr r.display)), ("description", Json.str (ofStr r.description)),
+    ("dt", optNidToJson r.dataType), ("parent", optNidToJson r.parent), ("md", optNidToJson r.methodDecl),
+    ("attrs", Json.arr (r.attrs.map fun p => Json.arr #[Json.str (ofStr p.1), attrValToJson p.2]).toArray)]
+
+def optNatToJson : Option Nat → Json
+  | none => Json.null
+  | some n => Json.num (JsonNumber.fromNat n)
+
+def optStrToJson : Option Str → Json
+  | none => Json.null
+  | some s => Json.str (ofStr s)
+
+def modelToJson (m : ModelElem) : Json :=
+  Json.mkObj [("uri", optStrToJson m.uri), ("publication_date", optStrToJson m.publicationDate), ("version", optStrToJson m.version),
+    ("required_models", Json.arr (m.required.map fun r => Json.mkObj [("uri", optStrToJson r.uri),
+      ("publication_date", optStrToJson r.publicationDate), ("version", optStrToJson r.version)]).toArray)]
+
+def opParseFiles (j : Json) : Except String Json := do
+  let caller ← (do
+    if has j "caller" then (← getArr j "caller").toList.mapM fun u => do return strOf (← u.getStr?)
+    else return [])
+  let docs ← (← getArr j "docs").toList.mapM docOf
+  match parseFiles caller docs with
+  | .error e => return errJson e
+  | .ok r =>
+    let nz := normalize r.nodes r.refs
+    return Json.mkObj [
+      ("namespaces", Json.arr (r.namespaces.map fun u => Json.str (ofStr u)).toArray),
+      ("nodes", Json.arr (r.nodes.map rowToJson).toArray),
+      ("refs", Json.arr (r.refs.map fun t => Json.arr #[nodeIdToJson t.1, nodeIdToJson t.2.1, nodeIdToJson t.2.2]).toArray),
+      ("lookup", Json.arr (nz.lookup.map nodeIdToJson).toArray),
+      ("ids", Json.arr (nz.nodeIds.map fun x => Json.arr #[optNatToJson x.id, optNatToJson x.parent, optNatToJson x.dataType, optNatToJson x.methodDecl]).toArray),
+      ("nrefs", Json.arr (nz.refs.map fun t => Json.arr #[optNatToJson t.1, optNatToJson t.2.1, optNatToJson t.2.2]).toArray),
+      ("models", Json.arr (r.models.map modelToJson).toArray)]
+
+def opParseDoc (j : Json) : Except String Json := do
+  let caller ← (do
+    if has j "caller" then (← getArr j "caller").toList.mapM fun u => do return strOf (← u.getStr?)
+    else return [])
+  let d ← docOf (← j.getObjVal? "doc")
+  let batch ← (do if has j "batch" then getNat j "batch" else return 100000)
+  match parseDoc caller d batch with
+  | .error e => return errJson e
+  | .ok (g, r) =>
+    return Json.mkObj [
+      ("namespaces", Json.arr (g.map fun u => Json.str (ofStr u)).toArray),
+      ("nodes", Json.arr (r.nodes.map rowToJson).toArray),
+      ("refs", Json.arr (r.refs.map fun t => Json.arr #[nodeIdToJson t.1, nodeIdToJson t.2.1, nodeIdToJson t.2.2]).toArray),
+      ("models", Json.arr (r.models.map modelToJson).toArray)]
+
+def opExtendNs (j : Json) : Except String Json := do
+  let ex ← (← getArr j "existing").toList.mapM fun u => do return strOf (← u.getStr?)
+  let us ← (← getArr j "uris").toList.mapM fun u => do return strOf (← u.getStr?)
+  let (g, gs) := extendNs ex us
+  return Json.mkObj [("namespaces", Json.arr (g.map fun u => Json.str (ofStr u)).toArray),
+    ("map", Json.arr ((nsMapOf gs).map fun p => Json.arr #[Json.num (JsonNumber.fromInt p.1), Json.num (JsonNumber.fromInt p.2)]).toArray)]
+
+def opNsList (j : Json) : Except String Json := do
+  let d ← (← getArr j "dict").toList.mapM fun p => do
+    let q ← p.getArr?
+    if q.size != 2 then throw "dict pair"
+    return ((← q[0]!.getNat?), strOf (← q[1]!.getStr?))
+  return Json.mkObj [("list", Json.arr ((namespaceListOfDict d).map fun u => Json.str (ofStr u)).toArray)]
+
 def dispatch (j : Json) : Except String Json := do
   let op ← (← j.getObjVal? "op").getStr?
   match op with
@@ -154,6 +272,10 @@ def dispatch (j : Json) : Except String Json := do
   | "order.cmp" => opOrderCmp j
   | "order.sort" => opOrderSort j
   | "order.eq" => opOrderEq j
+  | "parse.files" => opParseFiles j
+  | "parse.doc" => opParseDoc j
+  | "ns.extend" => opExtendNs j
+  | "ns.list" => opNsList j
   | "ping" => return Json.mkObj [("pong", Json.bool true)]
   | _ => throw s!"unknown op {op}"
 
